@@ -104,7 +104,7 @@ def same(kind, a, b):
 def run(ctx):
     drv = build.link_driver("attr_drv", [DRV], schema=build.schema_lib("kinds", open(kinds.SCHEMA).read()))
     L = 5 if ctx.quick else 6
-    ctxs = [(",7);", ","), (");", ")")] + ([] if ctx.quick else [(" ,7);", ","), ("\t)", ")")])
+    ctxs = [(",7);", ","), (");", ")")] + ([] if ctx.quick else [(" ,7);", ","), ("  );", ")"), ("/* c */,7);", ",")])
     tails = {"int": "7", "real": "2.5", "str": "'x'", "bin": '"0"', "enum": ".RED.", "bool": ".T.", "log": ".U.", "ref": "#1"}
     wd = os.path.join(ctx.work, "s")
     shutil.rmtree(wd, ignore_errors=True)
